@@ -106,6 +106,10 @@ func (pj *ParsedJson) stringAt(offset, length uint64) (string, error) {
 // stringByteAt returns a string at a specific offset in the stringbuffer.
 func (pj *ParsedJson) stringByteAt(offset, length uint64) ([]byte, error) {
 	if offset&STRINGBUFBIT == 0 {
+		if length > uint64(len(pj.Message)) {
+			// Also keeps offset+length below from wrapping around.
+			return nil, fmt.Errorf("string message length (%v) outside valid area (%v)", length, len(pj.Message))
+		}
 		if offset+length > uint64(len(pj.Message)) {
 			return nil, fmt.Errorf("string message offset (%v) outside valid area (%v)", offset+length, len(pj.Message))
 		}
@@ -113,6 +117,10 @@ func (pj *ParsedJson) stringByteAt(offset, length uint64) ([]byte, error) {
 	}
 
 	offset = offset & STRINGBUFMASK
+	if length > uint64(len(pj.Strings.B)) {
+		// Also keeps offset+length below from wrapping around.
+		return nil, fmt.Errorf("string buffer length (%v) outside valid area (%v)", length, len(pj.Strings.B))
+	}
 	if offset+length > uint64(len(pj.Strings.B)) {
 		return nil, fmt.Errorf("string buffer offset (%v) outside valid area (%v)", offset+length, len(pj.Strings.B))
 	}
@@ -826,6 +834,9 @@ func (i *Iter) Root(dst *Iter) (Type, *Iter, error) {
 	}
 	if i.cur > uint64(len(i.tape.Tape)) {
 		return TypeNone, dst, errors.New("root element extends beyond tape")
+	}
+	if i.cur == 0 {
+		return TypeNone, dst, errors.New("root element ends before it starts")
 	}
 	if dst == nil {
 		c := *i
